@@ -180,6 +180,26 @@ TABLE = {
         "scheme obtains it.",
         "6/C16",
     ),
+    "C07": (
+        "exploration",
+        "exhaustive enumeration of all path-value sequences over a 3-letter (4-letter) alphabet for N <= 8 x the configuration lattice, each a complete run of the real standard engine on a scripted process, against a pure-Python reference",
+        "Stored rows, price, per-component standard error, control-variate adjustment (against an independent least-squares "
+        "solve; coefficient-independent consequences where the controls' sample covariance is singular), variance inequality "
+        "and spot statistics, for every sequence of terminal values and every configuration of payoff dimension, controls, "
+        "notional, discount factor.",
+        "Scripted process; single process (the pool is C08); alphabets and N bounded as stated.",
+        "6/C07",
+    ),
+    "C15": (
+        "exploration",
+        "exhaustive enumeration of scripted variates (all jump-count tuples, all jump-time multisets, identifiable Brownian increments) through every real simulator x mode x time grid; all time arrays of a 10-point lattice through the finer-grid builders",
+        "Every simulated path is compared with the reference assembly from the scripted variates: start, times, running sums "
+        "of jumps and of scaled Brownian increments, each variate used at most once, maximum step, original points kept, "
+        "inserted points repeating the preceding value, fine / coarse alignment.",
+        "numpy.random.* and random.getrandbits replaced by a scripted source; real samplers and jump laws underneath; "
+        "infinite-variation copulas excluded (constructor cost).",
+        "6/C15",
+    ),
 }
 
 READY = []  # filled from checks/ below; a module must define PID
